@@ -462,6 +462,20 @@ def run_c14_e2e(res, tier, seed, prop="C14"):
                     c.notify("textDocument/didChange", {"textDocument": {"uri": uri[n], "version": version[0]},
                              "contentChanges": [{"range": {"start": {"line": line, "character": col}, "end": {"line": line, "character": cole}}, "text": ins}]})
                     texts[n] = t[:i] + ins + t[i + delete:]
+                def batch_edit(n, edits):
+                    """several content changes in ONE didChange (a multi-cursor edit, an applied rename): each is relative to
+                    the document as the previous one left it"""
+                    cc = []
+                    for (needle, delta, ins) in edits:
+                        t = texts[n]
+                        i = t.index(needle) + delta
+                        line = t.count("\n", 0, i)
+                        ls = t.rfind("\n", 0, i) + 1
+                        col = sum(width(ch, enc) for ch in t[ls:i])
+                        cc.append({"range": {"start": {"line": line, "character": col}, "end": {"line": line, "character": col}}, "text": ins})
+                        texts[n] = t[:i] + ins + t[i:]
+                    version[0] += 1
+                    c.notify("textDocument/didChange", {"textDocument": {"uri": uri[n], "version": version[0]}, "contentChanges": cc})
                 def ask_all(stage):
                     for (n, needle, nth, delta) in asks:
                         p = {"textDocument": {"uri": uri[n]}, "position": pos_of(n, needle, nth, delta)}
@@ -509,6 +523,10 @@ def run_c14_e2e(res, tier, seed, prop="C14"):
                     type_edit("lib", "pub const k", len("pub const k"), delete=1)
                     type_edit("lib", "pub fn other", len("pub fn other"), delete=1)
                 ask_all("deleted")
+                # one notification with several changes: a line inserted above and characters typed in two places
+                batch_edit("main", [("import lib", 0, "// first line\n"), ("pub fn main", len("pub fn main"), "QQ"), ("lib.target", 0, " ")])
+                batch_edit("lib", [("pub fn other", 0, "\n"), ("pub const k", len("pub const k"), "zz"), ("pub fn other", len("pub fn other"), "W")])
+                ask_all("batched")
             finally:
                 c.close()
     finally:
